@@ -621,11 +621,12 @@ def run(ck):
     guarded("error-cases", lambda: stream_errors(ck, 60 if quick else 600))
     guarded("hcb", lambda: C03_paired.run_hcb_stream(ck))
     guarded("combinatorial", lambda: C03_paired.run_comb_stream(ck))
+    guarded("history", lambda: C03_paired.run_history_stream(ck))
 
 
 def replay(data):
     r = data["replay"]
-    if r.get("kind") in ("hcb", "comb"):
+    if r.get("kind") in ("hcb", "comb", "history"):
         from harness.props import C03_paired
         return C03_paired.replay(r)
     if r.get("kind") == "case":
